@@ -56,6 +56,14 @@ fn setters(ctx: &mut Ctx, r: &mut Rng, _i: u64) {
         if s.r.below(4) == 0 {
             v.coin = *s.r.pick(&[1_000_000i128, 2_000_000, 65_536, 4_294_967_296, 1_200_000]);
         }
+        if with_assets && s.r.bool() {
+            // several policies, several assets each (what a partial return is most easily wrong about)
+            for pi in 0..1 + s.r.below(3) {
+                for ai in 0..1 + s.r.below(2) {
+                    v.add_asset((vec![0xb0 + pi as u8; 28], vec![0x41 + ai as u8]), 2 + s.r.below(20) as i128);
+                }
+            }
+        }
         let k = s.key_ix();
         let addr = s.key_address(k);
         let i = s.new_utxo(&addr, v.clone());
@@ -79,7 +87,10 @@ fn setters(ctx: &mut Ctx, r: &mut Rng, _i: u64) {
             1 => {
                 // fewer: drop one asset or reduce a quantity
                 rv.assets = sum.assets.clone();
-                if let Some(k) = rv.assets.keys().next().cloned() {
+                // any asset of any policy (first, middle, last), not always the first one
+                let nkeys = rv.assets.len();
+                let kpick = if nkeys > 0 { s.r.usize(nkeys) } else { 0 };
+                if let Some(k) = rv.assets.keys().nth(kpick).cloned() {
                     if s.r.bool() || rv.assets[&k] <= 1 {
                         rv.assets.remove(&k);
                     } else {
@@ -92,7 +103,9 @@ fn setters(ctx: &mut Ctx, r: &mut Rng, _i: u64) {
             }
             2 => {
                 rv.assets = sum.assets.clone();
-                if let Some(k) = rv.assets.keys().next().cloned() {
+                let nkeys = rv.assets.len();
+                let kpick = if nkeys > 0 { s.r.usize(nkeys) } else { 0 };
+                if let Some(k) = rv.assets.keys().nth(kpick).cloned() {
                     *rv.assets.get_mut(&k).unwrap() += 1 + s.r.below(5) as i128;
                     "more"
                 } else {
@@ -118,7 +131,14 @@ fn setters(ctx: &mut Ctx, r: &mut Rng, _i: u64) {
             4 => sum.coin / 2,
             _ => (sum.coin - 1_000_000 - s.r.below(3_000_000) as i128).max(0),
         };
-        let out = TransactionOutput::new(&ret_addr, &val_to_csl(&rv));
+        let mut out = TransactionOutput::new(&ret_addr, &val_to_csl(&rv));
+        // the return is a full output: a datum hash / inline datum / script reference counts towards its minimum
+        match s.r.below(8) {
+            0 => out.set_data_hash(&hash_plutus_data(&PlutusData::new_bytes(vec![7; 12]))),
+            1 => out.set_plutus_data(&PlutusData::new_bytes(vec![7; 40])),
+            2 => out.set_script_ref(&ScriptRef::new_native_script(&ring.natives[4])),
+            _ => {}
+        }
         let r = guard(|| tb.set_collateral_return_and_total(&out));
         ctx.bucket(&format!("relation.{}", relation));
         match r {
